@@ -537,7 +537,7 @@ pub fn property() -> Property {
             "patch files are recorded under their file name only; recorded names classify unambiguously",
             "the file system accepts non-UTF-8 file names (Linux)",
         ],
-        streams: vec![random_stream("files", "file on disk x recorded entries x all six algorithms", case_strategy, |t| t.pick(6_000, 60_000), check)],
+        streams: vec![random_stream("files", "file on disk x recorded entries x all six algorithms", case_strategy, |t| t.pick(6_000, 150_000), check)],
         selfcheck: || {
             md::selfcheck()?;
             mh::selfcheck()
